@@ -1694,12 +1694,13 @@ impl ProtoExpression {
                     }
                     Op::Eq | Op::Ne => {
                         let is_onezero_x = match (x_mask_xz, y_mask_xz) {
+                            // Only bits known on both sides can decide a
+                            // mismatch (matches Op::eval_value_binary).
                             (Some(x_mask_xz), Some(y_mask_xz)) => {
-                                let x0 = builder.ins().bnot(x_mask_xz);
-                                let x1 = builder.ins().band(x_payload, x0);
-                                let x2 = builder.ins().bnot(y_mask_xz);
-                                let x3 = builder.ins().band(y_payload, x2);
-                                let x4 = builder.ins().icmp(IntCC::NotEqual, x1, x3);
+                                let x0 = builder.ins().bxor(x_payload, y_payload);
+                                let x1 = builder.ins().bor(x_mask_xz, y_mask_xz);
+                                let x2 = builder.ins().band_not(x0, x1);
+                                let x4 = icmp_const(builder, IntCC::NotEqual, x2, 0, needs_wide);
 
                                 let x5 =
                                     icmp_const(builder, IntCC::NotEqual, x_mask_xz, 0, needs_wide);
@@ -1709,18 +1710,18 @@ impl ProtoExpression {
                                 Some((x4, x7))
                             }
                             (Some(x_mask_xz), None) => {
-                                let x0 = builder.ins().bnot(x_mask_xz);
-                                let x1 = builder.ins().band(x_payload, x0);
-                                let x2 = builder.ins().icmp(IntCC::NotEqual, x1, y_payload);
+                                let x0 = builder.ins().bxor(x_payload, y_payload);
+                                let x1 = builder.ins().band_not(x0, x_mask_xz);
+                                let x2 = icmp_const(builder, IntCC::NotEqual, x1, 0, needs_wide);
 
                                 let x3 =
                                     icmp_const(builder, IntCC::NotEqual, x_mask_xz, 0, needs_wide);
                                 Some((x2, x3))
                             }
                             (None, Some(y_mask_xz)) => {
-                                let x0 = builder.ins().bnot(y_mask_xz);
-                                let x1 = builder.ins().band(y_payload, x0);
-                                let x2 = builder.ins().icmp(IntCC::NotEqual, x_payload, x1);
+                                let x0 = builder.ins().bxor(x_payload, y_payload);
+                                let x1 = builder.ins().band_not(x0, y_mask_xz);
+                                let x2 = icmp_const(builder, IntCC::NotEqual, x1, 0, needs_wide);
 
                                 let x3 =
                                     icmp_const(builder, IntCC::NotEqual, y_mask_xz, 0, needs_wide);
